@@ -51,6 +51,29 @@ CHECKS = {
              "pointer, parenthesised declarators after a type name, elaborated enum parameters (grammar-level, not small fixes).",
         technique="bounded exhaustive program enumeration on the real tools, g++ type-identity oracle",
     ),
+    "C08": dict(
+        level="model_checking",
+        text="Exhaustive enumeration of macro programs: object-/function-like definitions (7 parameter signatures) with every "
+             "body of up to 2 (thorough 3) nodes over {param, #param, pastes, literal, punctuator, nested call, self call, "
+             "__VA_ARGS__, #__VA_ARGS__, ,##__VA_ARGS__, __VA_OPT__, string literal}, every argument tuple over 12 argument "
+             "symbols, every #undef/redefine/push_macro/pop_macro/-D sequence up to 3 (4); parse_file -E token stream (rel and "
+             "asan builds) compared pp-token by pp-token with gcc -E -P.",
+        design="4/C08",
+        note="Programs gcc rejects and expansions that are not C++ tokens are unjudged and counted; for ,##__VA_ARGS__ and the "
+             "self-reference family either the ISO or the GNU result is accepted.",
+        technique="bounded exhaustive program enumeration on the real preprocessor, gcc -E oracle",
+    ),
+    "C09": dict(
+        level="model_checking",
+        text="Exhaustive enumeration of all well-nested directive sequences over {#if,#ifdef,#ifndef,#elif,#elifdef,#elifndef,"
+             "#else,#endif} up to length 6 (thorough 8), nesting<=3, in layers over 13 condition spellings x 3 macro states; every "
+             "group carries a marker, define/undef side effects, a comment containing directives and (when skipped) #error, a "
+             "missing include and an unbalanced quote; surviving markers, final macro state and absence of diagnostics from "
+             "skipped groups are compared with gcc -E -P and a stack-machine model.",
+        design="4/C09",
+        note="Condition expressions with undefined behaviour (/0) are left to C07/C15.",
+        technique="bounded exhaustive enumeration of directive sequences on the real preprocessor, gcc -E + reference-model oracle",
+    ),
     "C10": dict(
         level="model_checking",
         text="Exhaustive enumeration of class shapes (ctor set x destructor form x data members x virtuals; 5040 level-0 "
